@@ -4,6 +4,7 @@
 -/
 import HidiProofs.EngineSimBase
 import Hidi.Upkeep
+import Hidi.Gen.Tables
 namespace Hidi.Props.C18
 open Hidi Hidi.EngineSim
 
@@ -239,5 +240,625 @@ theorem C18_blacklist_created (tpl : List (String × Node)) (fs : FS) (hroot : (
         exact writeFile_self hw
       · simp at hok
     · simp at hok
+
+/-! ### running it again changes nothing -/
+
+/-- a tree in which every directory entry of the list exists and every file entry has the template content is a
+    fixed point of the factory update -/
+theorem updateFactory_fixpoint (l : List (String × Node)) (fs : FS)
+    (hd : ∀ p, (p, Node.dir) ∈ l → (alookup p fs).isSome = true)
+    (hf : ∀ p data, (p, Node.file data) ∈ l → alookup p fs = some (.file data)) :
+    updateFactory l fs = (fs, true) := by
+  induction l with
+  | nil => rfl
+  | cons e r ih =>
+    obtain ⟨p, nd⟩ := e
+    have ihr := ih (fun q hq => hd q (List.mem_cons_of_mem _ hq)) (fun q d hq => hf q d (List.mem_cons_of_mem _ hq))
+    cases nd with
+    | dir =>
+      simp only [updateFactory]
+      rw [if_pos (hd p List.mem_cons_self)]
+      exact ihr
+    | file data =>
+      simp only [updateFactory]
+      rw [hf p data List.mem_cons_self]
+      simp only [if_true]
+      exact ihr
+
+/-- after a successful run every directory entry of the list exists -/
+theorem updateFactory_dirs (l : List (String × Node)) : ∀ (fs : FS), (l.map (·.1)).Nodup →
+    (updateFactory l fs).2 = true → ∀ p, (p, Node.dir) ∈ l → (alookup p (updateFactory l fs).1).isSome = true := by
+  induction l with
+  | nil => intro fs _ _ p h; cases h
+  | cons e r ih =>
+    intro fs hnd hok p hmem
+    obtain ⟨p0, nd⟩ := e
+    simp only [List.map_cons, List.nodup_cons] at hnd
+    have key : ∃ fs1, updateFactory ((p0, nd) :: r) fs = updateFactory r fs1 ∧
+        (nd = Node.dir → (alookup p0 fs1).isSome = true) := by
+      cases nd with
+      | dir =>
+        simp only [updateFactory] at hok ⊢
+        split
+        · rename_i hsome; exact ⟨fs, rfl, fun _ => hsome⟩
+        · cases hm : mkdir fs p0 with
+          | none => rw [hm] at hok; rename_i hx; simp [hx] at hok
+          | some fs' => exact ⟨fs', rfl, fun _ => by rw [mkdir_self hm]; rfl⟩
+      | file data0 =>
+        simp only [updateFactory] at hok ⊢
+        cases hl : alookup p0 fs with
+        | none =>
+          rw [hl] at hok
+          simp only at hok ⊢
+          cases hw : writeFile fs p0 data0 with
+          | none => rw [hw] at hok; simp at hok
+          | some fs' => exact ⟨fs', rfl, fun h => by cases h⟩
+        | some nd' =>
+          rw [hl] at hok
+          cases nd' with
+          | dir => simp at hok
+          | file old =>
+            simp only at hok ⊢
+            by_cases he : old = data0
+            · simp only [he, if_true] at hok ⊢; exact ⟨fs, rfl, fun h => by cases h⟩
+            · simp only [he, if_false] at hok ⊢
+              cases hw : writeFile fs p0 data0 with
+              | none => rw [hw] at hok; simp at hok
+              | some fs' => exact ⟨fs', rfl, fun h => by cases h⟩
+    obtain ⟨fs1, heq, hhead⟩ := key
+    rw [heq] at hok ⊢
+    rcases List.mem_cons.mp hmem with h | h
+    · simp only [Prod.mk.injEq] at h
+      obtain ⟨rfl, rfl⟩ := h
+      rw [updateFactory_frame r fs1 p hnd.1]
+      exact hhead rfl
+    · exact ih fs1 hnd.2 hok p h
+
+/-- **idempotent**: a second run after a successful one changes nothing and succeeds -/
+theorem C18_idempotent (tpl : List (String × Node)) (fs : FS) (hroot : (alookup configDir fs).isSome = true)
+    (hnd : ((facOf tpl).map (·.1)).Nodup) (hbl : blacklistPath ∉ (facOf tpl).map (·.1))
+    (hcfg : configDir ∉ (facOf tpl).map (·.1))
+    (hok : (upkeep tpl fs).2 = true) :
+    upkeep tpl (upkeep tpl fs).1 = ((upkeep tpl fs).1, true) := by
+  have hroot' : (alookup configDir (upkeep tpl fs).1).isSome = true := by
+    rw [C18_frame tpl fs hroot configDir hcfg (Or.inl (by decide))]; exact hroot
+  -- the first run, spelled out
+  have hfok : (updateFactory (facOf tpl) fs).2 = true := by
+    rw [upkeep_present tpl fs hroot] at hok
+    split at hok
+    · simp at hok
+    · rename_i h; simpa using h
+  -- factory entries in the result of the first run
+  have hfiles : ∀ p data, (p, Node.file data) ∈ facOf tpl → alookup p (upkeep tpl fs).1 = some (.file data) :=
+    C18_restores tpl fs hroot hnd hbl hok
+  have hdirs : ∀ p, (p, Node.dir) ∈ facOf tpl → (alookup p (upkeep tpl fs).1).isSome = true := by
+    intro p hp
+    have hpb : p ≠ blacklistPath := by
+      intro he; subst he; exact hbl (List.mem_map_of_mem (f := Prod.fst) hp)
+    have h1 := updateFactory_dirs (facOf tpl) fs hnd hfok p hp
+    -- the blacklist step does not touch `p`
+    rw [upkeep_present tpl fs hroot, if_neg (by simpa using hfok)]
+    split
+    · exact h1
+    · split
+      · split
+        · rename_i fs2 hw; simp only; rw [writeFile_lookup hw hpb]; exact h1
+        · exact h1
+      · exact h1
+  -- the blacklist exists after the first run
+  have hblk : (alookup blacklistPath (upkeep tpl fs).1).isSome = true := by
+    cases hb : alookup blacklistPath fs with
+    | some x =>
+      rw [C18_frame tpl fs hroot blacklistPath hbl (Or.inr (by rw [hb]; rfl)), hb]; rfl
+    | none =>
+      obtain ⟨data, -, h2⟩ := C18_blacklist_created tpl fs hroot hbl hb hok
+      rw [h2]; rfl
+  rw [upkeep_present tpl _ hroot', updateFactory_fixpoint (facOf tpl) _ hdirs hfiles]
+  simp only [not_true_eq_false, if_false]
+  cases hx : alookup blacklistPath (upkeep tpl fs).1 with
+  | none => rw [hx] at hblk; cases hblk
+  | some x => rfl
+
+/-! ### the factory update succeeds on every regular tree -/
+
+/-- the tree is *regular* for a list of template entries: where the template has a directory the tree has nothing or a
+    directory, where it has a file the tree has nothing or a file (absent, truncated, modified, intact — not type-swapped) -/
+def Regular (l : List (String × Node)) (fs : FS) : Prop :=
+  (∀ p, (p, Node.dir) ∈ l → alookup p fs = none ∨ alookup p fs = some .dir) ∧
+  (∀ p d, (p, Node.file d) ∈ l → alookup p fs = none ∨ ∃ o, alookup p fs = some (.file o))
+
+/-- walking the list, every entry's parent is a directory known by then: one of `known` or an earlier directory entry -/
+def Ready : List String → List (String × Node) → Bool
+  | _, [] => true
+  | known, (p, .dir) :: r => known.contains (parentOf p) && Ready (p :: known) r
+  | known, (p, .file _) :: r => known.contains (parentOf p) && Ready known r
+
+theorem isDirIn_of_known {fs : FS} {known : List String} (hk : ∀ k ∈ known, alookup k fs = some .dir)
+    {q : String} (hq : known.contains q = true) : isDirIn fs q = true := by
+  have := hk q (List.contains_iff_mem.mp hq)
+  simp [isDirIn, this]
+
+theorem updateFactory_succeeds (l : List (String × Node)) : ∀ (known : List String) (fs : FS),
+    (l.map (·.1)).Nodup → (∀ k ∈ known, alookup k fs = some .dir ∧ k ∉ l.map (·.1)) →
+    Ready known l = true → Regular l fs → (updateFactory l fs).2 = true := by
+  induction l with
+  | nil => intro _ _ _ _ _ _; rfl
+  | cons e r ih =>
+    intro known fs hnd hk hready hreg
+    obtain ⟨p, nd⟩ := e
+    simp only [List.map_cons, List.nodup_cons] at hnd
+    have hk' : ∀ k ∈ known, alookup k fs = some .dir := fun k h => (hk k h).1
+    have hkne : ∀ k ∈ known, k ≠ p := fun k h e => (hk k h).2 (by rw [e]; exact List.mem_cons_self)
+    have hkr : ∀ k ∈ known, k ∉ r.map (·.1) := fun k h hm => (hk k h).2 (List.mem_cons_of_mem _ hm)
+    have hregr : ∀ fs', (∀ q, q ≠ p → alookup q fs' = alookup q fs) → Regular r fs' := by
+      intro fs' hsame
+      constructor
+      · intro q hq
+        have hqp : q ≠ p := fun e => hnd.1 (by rw [← e]; exact List.mem_map_of_mem (f := Prod.fst) hq)
+        rw [hsame q hqp]; exact hreg.1 q (List.mem_cons_of_mem _ hq)
+      · intro q d hq
+        have hqp : q ≠ p := fun e => hnd.1 (by rw [← e]; exact List.mem_map_of_mem (f := Prod.fst) hq)
+        rw [hsame q hqp]; exact hreg.2 q d (List.mem_cons_of_mem _ hq)
+    cases nd with
+    | dir =>
+      simp only [Ready, Bool.and_eq_true] at hready
+      simp only [updateFactory]
+      rcases hreg.1 p List.mem_cons_self with hn | hd
+      · -- absent: created
+        have hnone : (alookup p fs).isSome = false := by rw [hn]; rfl
+        rw [if_neg (by rw [hnone]; simp)]
+        have hm : mkdir fs p = some (ainsert p .dir fs) := by
+          unfold mkdir
+          rw [if_pos ⟨isDirIn_of_known hk' hready.1, by rw [hn]; rfl⟩]
+        rw [hm]
+        simp only
+        apply ih (p :: known) _ hnd.2 _ hready.2 (hregr _ (fun q hq => alookup_ainsert_ne hq))
+        intro k hkm
+        rcases List.mem_cons.mp hkm with e | e
+        · subst e; exact ⟨alookup_ainsert_self, hnd.1⟩
+        · exact ⟨by rw [alookup_ainsert_ne (hkne k e)]; exact hk' k e, hkr k e⟩
+      · -- already a directory
+        rw [if_pos (by rw [hd]; rfl)]
+        apply ih (p :: known) fs hnd.2 _ hready.2 (hregr fs (fun _ _ => rfl))
+        intro k hkm
+        rcases List.mem_cons.mp hkm with e | e
+        · subst e; exact ⟨hd, hnd.1⟩
+        · exact ⟨hk' k e, hkr k e⟩
+    | file data =>
+      simp only [Ready, Bool.and_eq_true] at hready
+      simp only [updateFactory]
+      have hw : ∀ o, (alookup p fs = none ∨ alookup p fs = some (.file o)) →
+          writeFile fs p data = some (ainsert p (.file data) fs) := by
+        intro o ho
+        unfold writeFile
+        rw [if_neg (by rw [isDirIn_of_known hk' hready.1]; simp)]
+        rcases ho with h | h <;> rw [h]
+      have hknown' : ∀ (fs' : FS), (∀ q, q ≠ p → alookup q fs' = alookup q fs) →
+          ∀ k ∈ known, alookup k fs' = some .dir ∧ k ∉ r.map (·.1) :=
+        fun fs' hs k hkm => ⟨by rw [hs k (hkne k hkm)]; exact hk' k hkm, hkr k hkm⟩
+      rcases hreg.2 p data List.mem_cons_self with hn | ⟨o, ho⟩
+      · rw [hn]
+        simp only
+        rw [hw data (Or.inl hn)]
+        simp only
+        exact ih known _ hnd.2 (hknown' _ (fun q hq => alookup_ainsert_ne hq)) hready.2
+          (hregr _ (fun q hq => alookup_ainsert_ne hq))
+      · rw [ho]
+        simp only
+        by_cases he : o = data
+        · rw [if_pos he]
+          exact ih known fs hnd.2 (hknown' fs (fun _ _ => rfl)) hready.2 (hregr fs (fun _ _ => rfl))
+        · rw [if_neg he, hw o (Or.inr ho)]
+          simp only
+          exact ih known _ hnd.2 (hknown' _ (fun q hq => alookup_ainsert_ne hq)) hready.2
+            (hregr _ (fun q hq => alookup_ainsert_ne hq))
+
+/-- **start-up upkeep succeeds on every regular tree** (configuration directory present): whatever is absent, truncated or
+    modified among the factory entries, whatever else is in the tree -/
+theorem C18_succeeds (tpl : List (String × Node)) (fs : FS) (hroot : alookup configDir fs = some .dir)
+    (hnd : ((facOf tpl).map (·.1)).Nodup) (hcfg : configDir ∉ (facOf tpl).map (·.1))
+    (hbl : blacklistPath ∉ (facOf tpl).map (·.1))
+    (hready : Ready [configDir] (facOf tpl) = true) (hreg : Regular (facOf tpl) fs)
+    (hbp : parentOf blacklistPath = configDir)
+    (hbt : ∃ data, alookup blacklistPath tpl = some (.file data))
+    (hbr : alookup blacklistPath fs = none ∨ ∃ o, alookup blacklistPath fs = some (.file o)) :
+    (upkeep tpl fs).2 = true := by
+  have hroot' : (alookup configDir fs).isSome = true := by rw [hroot]; rfl
+  have hfok := updateFactory_succeeds (facOf tpl) [configDir] fs hnd
+    (by intro k hk; simp at hk; subst hk; exact ⟨hroot, hcfg⟩) hready hreg
+  rw [upkeep_present tpl fs hroot', if_neg (by simpa using hfok)]
+  have hfb := updateFactory_frame (facOf tpl) fs blacklistPath hbl
+  have hfc := updateFactory_frame (facOf tpl) fs configDir hcfg
+  rcases hbr with hn | ⟨o, ho⟩
+  · rw [hfb, hn]
+    simp only
+    obtain ⟨data, hd⟩ := hbt
+    rw [hd]
+    simp only
+    have : writeFile (updateFactory (facOf tpl) fs).1 blacklistPath data =
+        some (ainsert blacklistPath (.file data) (updateFactory (facOf tpl) fs).1) := by
+      unfold writeFile
+      have hdir : isDirIn (updateFactory (facOf tpl) fs).1 (parentOf blacklistPath) = true := by
+        rw [hbp]; simp [isDirIn, hfc, hroot]
+      rw [if_neg (by rw [hdir]; simp), hfb, hn]
+    rw [this]
+  · rw [hfb, ho]
+
+/-! ### crash states: whatever an interrupted run leaves behind is again a regular tree with the same user files -/
+
+theorem regular_of_agree {l : List (String × Node)} {fs c : FS} (h : Regular l fs)
+    (hag : ∀ q, q ∈ l.map (·.1) → alookup q c = alookup q fs) : Regular l c := by
+  constructor
+  · intro p hp; rw [hag p (List.mem_map_of_mem (f := Prod.fst) hp)]; exact h.1 p hp
+  · intro p d hp; rw [hag p (List.mem_map_of_mem (f := Prod.fst) hp)]; exact h.2 p d hp
+
+/-- every intermediate tree of a factory update (the in-flight file cut anywhere: content `"-"`) agrees with the start tree
+    outside the list's paths and is regular for the list -/
+theorem crashStates_similar (l : List (String × Node)) : ∀ (fs : FS), (l.map (·.1)).Nodup → Regular l fs →
+    ∀ c ∈ updateFactoryS l fs, (∀ q, q ∉ l.map (·.1) → alookup q c = alookup q fs) ∧ Regular l c := by
+  induction l with
+  | nil => intro fs _ _ c hc; cases hc
+  | cons e r ih =>
+    intro fs hnd hreg c hc
+    obtain ⟨p, nd⟩ := e
+    simp only [List.map_cons, List.nodup_cons] at hnd
+    have hregr : Regular r fs := ⟨fun q hq => hreg.1 q (List.mem_cons_of_mem _ hq), fun q d hq => hreg.2 q d (List.mem_cons_of_mem _ hq)⟩
+    -- lift a statement about a later state (relative to `fs'` and `r`) to one relative to `fs` and the whole list
+    have lift : ∀ (fs' : FS) (nd' : Node), (∀ q, q ≠ p → alookup q fs' = alookup q fs) → alookup p fs' = some nd' →
+        (nd = Node.dir → nd' = Node.dir) → (∀ d, nd = Node.file d → ∃ o, nd' = Node.file o) →
+        ∀ c, ((∀ q, q ∉ r.map (·.1) → alookup q c = alookup q fs') ∧ Regular r c) →
+          (∀ q, q ∉ (p :: r.map (·.1)) → alookup q c = alookup q fs) ∧ Regular ((p, nd) :: r) c := by
+      intro fs' nd' hsame hp hdir hfile c ⟨h1, h2⟩
+      refine ⟨?_, ?_⟩
+      · intro q hq
+        simp only [List.mem_cons, not_or] at hq
+        rw [h1 q hq.2, hsame q hq.1]
+      · have hcp : alookup p c = some nd' := by rw [h1 p hnd.1]; exact hp
+        constructor
+        · intro q hq
+          rcases List.mem_cons.mp hq with e | e
+          · simp only [Prod.mk.injEq] at e
+            obtain ⟨rfl, rfl⟩ := e
+            right; rw [hcp, hdir rfl]
+          · exact h2.1 q e
+        · intro q d hq
+          rcases List.mem_cons.mp hq with e | e
+          · simp only [Prod.mk.injEq] at e
+            obtain ⟨rfl, rfl⟩ := e
+            right
+            obtain ⟨o, ho⟩ := hfile d rfl
+            exact ⟨o, by rw [hcp, ho]⟩
+          · exact h2.2 q d e
+    -- the same for a state that only differs from `fs` at `p`
+    have here : ∀ (c : FS) (nd' : Node), (∀ q, q ≠ p → alookup q c = alookup q fs) → alookup p c = some nd' →
+        (nd = Node.dir → nd' = Node.dir) → (∀ d, nd = Node.file d → ∃ o, nd' = Node.file o) →
+        (∀ q, q ∉ (p :: r.map (·.1)) → alookup q c = alookup q fs) ∧ Regular ((p, nd) :: r) c := by
+      intro c nd' hsame hp hdir hfile
+      refine lift c nd' hsame hp hdir hfile c ⟨fun _ _ => rfl, ?_⟩
+      exact regular_of_agree hregr (fun q hq => hsame q (fun e => hnd.1 (e ▸ hq)))
+    cases nd with
+    | dir =>
+      simp only [updateFactoryS] at hc
+      split at hc
+      · -- exists already: the states are those of the rest, from `fs`
+        rename_i hsome
+        have hd : alookup p fs = some .dir := by
+          rcases hreg.1 p List.mem_cons_self with h | h
+          · rw [h] at hsome; cases hsome
+          · exact h
+        exact lift fs .dir (fun _ _ => rfl) hd (fun _ => rfl) (fun d h => by cases h) c (ih fs hnd.2 hregr c hc)
+      · cases hm : mkdir fs p with
+        | none => rw [hm] at hc; cases hc
+        | some fs' =>
+          rw [hm] at hc
+          have hsame : ∀ q, q ≠ p → alookup q fs' = alookup q fs := fun q hq => mkdir_lookup hm hq
+          have hp := mkdir_self hm
+          rcases List.mem_cons.mp hc with e | e
+          · subst e
+            exact here _ .dir hsame hp (fun _ => rfl) (fun d h => by cases h)
+          · have hregr' : Regular r fs' := regular_of_agree hregr (fun q hq => hsame q (fun e => hnd.1 (e ▸ hq)))
+            exact lift fs' .dir hsame hp (fun _ => rfl) (fun d h => by cases h) c (ih fs' hnd.2 hregr' c e)
+    | file data =>
+      simp only [updateFactoryS] at hc
+      -- the two shapes of a write: placeholder content, then complete
+      have write_case : ∀ (fs' : FS), writeFile fs p data = some fs' →
+          c ∈ writeStates fs p data ++ updateFactoryS r fs' →
+          (∀ q, q ∉ (p :: r.map (·.1)) → alookup q c = alookup q fs) ∧ Regular ((p, Node.file data) :: r) c := by
+        intro fs' hw hc'
+        have hsame : ∀ q, q ≠ p → alookup q fs' = alookup q fs := fun q hq => writeFile_lookup hw hq
+        have hp := writeFile_self hw
+        rcases List.mem_append.mp hc' with e | e
+        · unfold writeStates at e
+          rw [hw] at e
+          simp only [List.mem_cons, List.not_mem_nil, or_false] at e
+          rcases e with e | e
+          · subst e
+            exact here _ (.file "-") (fun q hq => alookup_ainsert_ne hq) alookup_ainsert_self
+              (fun h => by cases h) (fun d _ => ⟨"-", rfl⟩)
+          · subst e
+            exact here _ (.file data) hsame hp (fun h => by cases h) (fun d _ => ⟨data, rfl⟩)
+        · have hregr' : Regular r fs' := regular_of_agree hregr (fun q hq => hsame q (fun e => hnd.1 (e ▸ hq)))
+          exact lift fs' (.file data) hsame hp (fun h => by cases h) (fun d _ => ⟨data, rfl⟩) c (ih fs' hnd.2 hregr' c e)
+      cases hl : alookup p fs with
+      | none =>
+        rw [hl] at hc
+        simp only at hc
+        cases hw : writeFile fs p data with
+        | none => rw [hw] at hc; cases hc
+        | some fs' => rw [hw] at hc; exact write_case fs' hw hc
+      | some nd' =>
+        rw [hl] at hc
+        cases nd' with
+        | dir => cases hc
+        | file old =>
+          simp only at hc
+          by_cases he : old = data
+          · rw [if_pos he] at hc
+            exact lift fs (.file old) (fun _ _ => rfl) hl (fun h => by cases h) (fun d _ => ⟨old, rfl⟩) c (ih fs hnd.2 hregr c hc)
+          · rw [if_neg he] at hc
+            cases hw : writeFile fs p data with
+            | none => rw [hw] at hc; cases hc
+            | some fs' => rw [hw] at hc; exact write_case fs' hw hc
+
+/-- the result of a factory update (successful or not) is regular again -/
+theorem updateFactory_regular (l : List (String × Node)) : ∀ (fs : FS), (l.map (·.1)).Nodup → Regular l fs →
+    Regular l (updateFactory l fs).1 := by
+  induction l with
+  | nil => intro fs _ h; exact h
+  | cons e r ih =>
+    intro fs hnd hreg
+    obtain ⟨p, nd⟩ := e
+    simp only [List.map_cons, List.nodup_cons] at hnd
+    have hregr : Regular r fs := ⟨fun q hq => hreg.1 q (List.mem_cons_of_mem _ hq), fun q d hq => hreg.2 q d (List.mem_cons_of_mem _ hq)⟩
+    -- after the head: a tree `fs1` that differs from `fs` at most at `p`, where it is type-correct
+    have fin : ∀ (fs1 : FS), (∀ q, q ≠ p → alookup q fs1 = alookup q fs) →
+        ((nd = Node.dir → alookup p fs1 = none ∨ alookup p fs1 = some .dir) ∧
+         (∀ d, nd = Node.file d → alookup p fs1 = none ∨ ∃ o, alookup p fs1 = some (.file o))) →
+        Regular ((p, nd) :: r) (updateFactory r fs1).1 := by
+      intro fs1 hsame hhead
+      have hr1 : Regular r fs1 := regular_of_agree hregr (fun q hq => hsame q (fun e => hnd.1 (e ▸ hq)))
+      have := ih fs1 hnd.2 hr1
+      have hfp := updateFactory_frame r fs1 p hnd.1
+      constructor
+      · intro q hq
+        rcases List.mem_cons.mp hq with e | e
+        · simp only [Prod.mk.injEq] at e; obtain ⟨rfl, rfl⟩ := e; rw [hfp]; exact hhead.1 rfl
+        · exact this.1 q e
+      · intro q d hq
+        rcases List.mem_cons.mp hq with e | e
+        · simp only [Prod.mk.injEq] at e; obtain ⟨rfl, rfl⟩ := e; rw [hfp]; exact hhead.2 d rfl
+        · exact this.2 q d e
+    have stay : Regular ((p, nd) :: r) fs := hreg
+    cases nd with
+    | dir =>
+      simp only [updateFactory]
+      split
+      · exact fin fs (fun _ _ => rfl) ⟨fun _ => hreg.1 p List.mem_cons_self, fun d h => by cases h⟩
+      · cases hm : mkdir fs p with
+        | none => exact stay
+        | some fs' =>
+          simp only
+          exact fin fs' (fun q hq => mkdir_lookup hm hq) ⟨fun _ => Or.inr (mkdir_self hm), fun d h => by cases h⟩
+    | file data =>
+      simp only [updateFactory]
+      cases hl : alookup p fs with
+      | none =>
+        simp only
+        cases hw : writeFile fs p data with
+        | none => exact stay
+        | some fs' =>
+          simp only
+          exact fin fs' (fun q hq => writeFile_lookup hw hq) ⟨fun h => (by cases h), fun d _ => Or.inr ⟨data, writeFile_self hw⟩⟩
+      | some nd' =>
+        cases nd' with
+        | dir => exact stay
+        | file old =>
+          simp only
+          by_cases he : old = data
+          · rw [if_pos he]
+            exact fin fs (fun _ _ => rfl) ⟨fun h => (by cases h), fun d _ => Or.inr ⟨old, hl⟩⟩
+          · rw [if_neg he]
+            cases hw : writeFile fs p data with
+            | none => exact stay
+            | some fs' =>
+              simp only
+              exact fin fs' (fun q hq => writeFile_lookup hw hq) ⟨fun h => (by cases h), fun d _ => Or.inr ⟨data, writeFile_self hw⟩⟩
+
+/-! ### the theorems instantiated with the embedded template of the repository (`Gen.templateShape`, regenerated) -/
+
+def hasFile (tpl : List (String × Node)) (p : String) : Bool :=
+  match alookup p tpl with
+  | some (.file _) => true
+  | _ => false
+
+theorem hasFile_spec {tpl : List (String × Node)} {p : String} (h : hasFile tpl p = true) :
+    ∃ data, alookup p tpl = some (.file data) := by
+  unfold hasFile at h
+  split at h
+  · rename_i d hd; exact ⟨d, hd⟩
+  · cases h
+
+/-- the template as the model sees it (contents are opaque tags) -/
+def repoTemplate : List (String × Node) :=
+  Gen.templateShape.map (fun e => (e.1, if e.2.1 then Node.dir else Node.file e.2.2))
+
+/-- structural facts about the embedded template that the theorems above need — checked by evaluation on every run:
+    factory paths are distinct; neither the configuration directory nor the blacklist is a factory path; walking the factory
+    part, every entry's parent is the configuration directory or an earlier directory entry; the blacklist lives directly in
+    the configuration directory and is a file of the template -/
+theorem C18_template_facts :
+    ((facOf repoTemplate).map (·.1)).Nodup ∧ configDir ∉ (facOf repoTemplate).map (·.1) ∧
+    blacklistPath ∉ (facOf repoTemplate).map (·.1) ∧ Ready [configDir] (facOf repoTemplate) = true ∧
+    parentOf blacklistPath = configDir ∧ (∃ data, alookup blacklistPath repoTemplate = some (.file data)) ∧
+    (facOf repoTemplate).length ≥ 2 := by
+  refine ⟨by decide, by decide, by decide, by decide, by decide, ?_, by decide⟩
+  have h : hasFile repoTemplate blacklistPath = true := by decide
+  exact hasFile_spec h
+
+/-- **for the repository's template**: on every regular tree with the configuration directory present, start-up upkeep
+    succeeds, restores every factory file, leaves everything else untouched, creates the blacklist only if missing, and a
+    second run changes nothing -/
+theorem C18_repo (fs : FS) (hroot : alookup configDir fs = some .dir) (hreg : Regular (facOf repoTemplate) fs)
+    (hbr : alookup blacklistPath fs = none ∨ ∃ o, alookup blacklistPath fs = some (.file o)) :
+    (upkeep repoTemplate fs).2 = true ∧
+    (∀ p data, (p, Node.file data) ∈ facOf repoTemplate → alookup p (upkeep repoTemplate fs).1 = some (.file data)) ∧
+    (∀ q, q ∉ (facOf repoTemplate).map (·.1) → (q ≠ blacklistPath ∨ (alookup blacklistPath fs).isSome = true) →
+      alookup q (upkeep repoTemplate fs).1 = alookup q fs) ∧
+    upkeep repoTemplate (upkeep repoTemplate fs).1 = ((upkeep repoTemplate fs).1, true) := by
+  obtain ⟨f1, f2, f3, f4, f5, f6, -⟩ := C18_template_facts
+  have hroot' : (alookup configDir fs).isSome = true := by rw [hroot]; rfl
+  have hok := C18_succeeds repoTemplate fs hroot f1 f2 f3 f4 hreg f5 f6 hbr
+  exact ⟨hok, C18_restores repoTemplate fs hroot' f1 f3 hok,
+    fun q hq hb => C18_frame repoTemplate fs hroot' q hq hb,
+    C18_idempotent repoTemplate fs hroot' f1 f3 f2 hok⟩
+
+/-! ### interruption: a later run on whatever an interrupted run left behind -/
+
+/-- crash states of a run with the configuration directory present -/
+theorem upkeepStates_present (tpl : List (String × Node)) (fs : FS) (hroot : (alookup configDir fs).isSome = true) :
+    upkeepStates tpl fs =
+      updateFactoryS (facOf tpl) fs ++
+      (if ¬ (updateFactory (facOf tpl) fs).2 = true then [] else
+       match alookup blacklistPath (updateFactory (facOf tpl) fs).1, alookup blacklistPath tpl with
+       | none, some (.file data) => writeStates (updateFactory (facOf tpl) fs).1 blacklistPath data
+       | _, _ => []) := by
+  unfold upkeepStates
+  have : ¬ (alookup configDir fs).isNone = true := by
+    cases h : alookup configDir fs <;> simp_all
+  rw [if_neg this]
+  rfl
+
+/-- **crash**: take any tree that is regular for the repository's template, with the configuration directory present, and
+    any state `c` an interrupted run can leave behind (after any primitive effect, the in-flight file cut anywhere).  Then a
+    later run on `c` succeeds, makes every factory file equal to its template again, and everything that is neither a
+    factory template path nor the blacklist is exactly as it was before the interrupted run. -/
+theorem C18_crash_repo (fs : FS) (hroot : alookup configDir fs = some .dir) (hreg : Regular (facOf repoTemplate) fs)
+    (hbr : alookup blacklistPath fs = none ∨ ∃ o, alookup blacklistPath fs = some (.file o))
+    (c : FS) (hc : c ∈ upkeepStates repoTemplate fs) :
+    (upkeep repoTemplate c).2 = true ∧
+    (∀ p data, (p, Node.file data) ∈ facOf repoTemplate → alookup p (upkeep repoTemplate c).1 = some (.file data)) ∧
+    (∀ q, q ∉ (facOf repoTemplate).map (·.1) → q ≠ blacklistPath → alookup q (upkeep repoTemplate c).1 = alookup q fs) := by
+  obtain ⟨f1, f2, f3, f4, f5, f6, -⟩ := C18_template_facts
+  have hroot' : (alookup configDir fs).isSome = true := by rw [hroot]; rfl
+  -- `c` agrees with `fs` outside the factory paths and the blacklist, is regular, and its blacklist is absent or a file
+  have hsim : (∀ q, q ∉ (facOf repoTemplate).map (·.1) → q ≠ blacklistPath → alookup q c = alookup q fs) ∧
+      Regular (facOf repoTemplate) c ∧ (alookup blacklistPath c = none ∨ ∃ o, alookup blacklistPath c = some (.file o)) := by
+    rw [upkeepStates_present repoTemplate fs hroot'] at hc
+    rcases List.mem_append.mp hc with h | h
+    · obtain ⟨h1, h2⟩ := crashStates_similar (facOf repoTemplate) fs f1 hreg c h
+      exact ⟨fun q hq _ => h1 q hq, h2, by rw [h1 blacklistPath f3]; exact hbr⟩
+    · split at h
+      · cases h
+      · -- the blacklist write: after a complete factory update
+        have hfr := updateFactory_frame (facOf repoTemplate) fs
+        have hregf := updateFactory_regular (facOf repoTemplate) fs f1 hreg
+        split at h
+        · rename_i data hbn hbt
+          unfold writeStates at h
+          cases hw : writeFile (updateFactory (facOf repoTemplate) fs).1 blacklistPath data with
+          | none => rw [hw] at h; cases h
+          | some fs2 =>
+            rw [hw] at h
+            simp only [List.mem_cons, List.not_mem_nil, or_false] at h
+            have both : ∀ (c' : FS), (∀ q, q ≠ blacklistPath → alookup q c' = alookup q (updateFactory (facOf repoTemplate) fs).1) →
+                (∃ o, alookup blacklistPath c' = some (.file o)) →
+                (∀ q, q ∉ (facOf repoTemplate).map (·.1) → q ≠ blacklistPath → alookup q c' = alookup q fs) ∧
+                Regular (facOf repoTemplate) c' ∧ (alookup blacklistPath c' = none ∨ ∃ o, alookup blacklistPath c' = some (.file o)) := by
+              intro c' hs hb
+              refine ⟨fun q hq hqb => by rw [hs q hqb, hfr q hq], ?_, Or.inr hb⟩
+              exact regular_of_agree hregf (fun q hq => hs q (fun e => f3 (e ▸ hq)))
+            rcases h with e | e
+            · subst e
+              exact both _ (fun q hq => alookup_ainsert_ne hq) ⟨"-", alookup_ainsert_self⟩
+            · subst e
+              exact both _ (fun q hq => writeFile_lookup hw hq) ⟨data, writeFile_self hw⟩
+        · cases h
+  obtain ⟨s1, s2, s3⟩ := hsim
+  have hrootc : alookup configDir c = some .dir := by
+    rw [s1 configDir f2 (by decide)]; exact hroot
+  obtain ⟨r1, r2, r3, -⟩ := C18_repo c hrootc s2 s3
+  refine ⟨r1, r2, ?_⟩
+  intro q hq hqb
+  rw [r3 q hq (Or.inl hqb), s1 q hq hqb]
+
+/-! ### the configuration directory does not exist: the complete template tree is created -/
+
+def nodeOf (e : String × Node) : Node := e.2
+
+/-- walking the list with nothing of it in the tree yet: everything is created, nothing else is touched -/
+theorem createAll_spec (l : List (String × Node)) : ∀ (known : List String) (fs : FS),
+    (l.map (·.1)).Nodup → (∀ k ∈ known, isDirIn fs k = true ∧ k ∉ l.map (·.1)) →
+    Ready known l = true → (∀ p ∈ l.map (·.1), alookup p fs = none) →
+    (createAll l fs).2 = true ∧ (∀ e ∈ l, alookup e.1 (createAll l fs).1 = some e.2) ∧
+    (∀ q, q ∉ l.map (·.1) → alookup q (createAll l fs).1 = alookup q fs) := by
+  induction l with
+  | nil => intro _ fs _ _ _ _; exact ⟨rfl, fun e he => (by cases he), fun _ _ => rfl⟩
+  | cons e r ih =>
+    intro known fs hnd hk hready habs
+    obtain ⟨p, nd⟩ := e
+    simp only [List.map_cons, List.nodup_cons] at hnd
+    have hpn : alookup p fs = none := habs p List.mem_cons_self
+    have hkp : ∀ k ∈ known, k ≠ p := fun k h e => (hk k h).2 (by rw [e]; exact List.mem_cons_self)
+    have hpar : isDirIn fs (parentOf p) = true := by
+      cases nd <;> (simp only [Ready, Bool.and_eq_true] at hready; exact (hk _ (List.contains_iff_mem.mp hready.1)).1)
+    -- the tree after the head entry
+    have hstep : ∃ fs', (match nd with | .dir => mkdir fs p | .file d => writeFile fs p d) = some fs' ∧ fs' = ainsert p nd fs := by
+      cases nd with
+      | dir => exact ⟨_, by simp only; unfold mkdir; rw [if_pos ⟨hpar, by rw [hpn]; rfl⟩], rfl⟩
+      | file d => exact ⟨_, by simp only; unfold writeFile; rw [if_neg (by rw [hpar]; simp), hpn], rfl⟩
+    obtain ⟨fs', hmk, hfs'⟩ := hstep
+    have hsame : ∀ q, q ≠ p → alookup q fs' = alookup q fs := fun q hq => by rw [hfs']; exact alookup_ainsert_ne hq
+    have hself : alookup p fs' = some nd := by rw [hfs']; exact alookup_ainsert_self
+    have hdirk : ∀ k, k ≠ p → isDirIn fs k = true → isDirIn fs' k = true := by
+      intro k hkne h
+      unfold isDirIn at h ⊢
+      rw [hsame k hkne]; exact h
+    have habs' : ∀ q ∈ r.map (·.1), alookup q fs' = none := fun q hq => by
+      rw [hsame q (fun e => hnd.1 (e ▸ hq))]; exact habs q (List.mem_cons_of_mem _ hq)
+    have hres : createAll ((p, nd) :: r) fs = createAll r fs' := by
+      cases nd with
+      | dir => simp only [createAll]; simp only at hmk; rw [hmk]
+      | file d => simp only [createAll]; simp only at hmk; rw [hmk]
+    have hknown' : ∀ k ∈ (match nd with | .dir => p :: known | .file _ => known),
+        isDirIn fs' k = true ∧ k ∉ r.map (·.1) := by
+      intro k hkm
+      cases nd with
+      | dir =>
+        rcases List.mem_cons.mp hkm with e | e
+        · subst e; exact ⟨by unfold isDirIn; rw [hself]; simp, hnd.1⟩
+        · exact ⟨hdirk k (hkp k e) (hk k e).1, fun hm => (hk k e).2 (List.mem_cons_of_mem _ hm)⟩
+      | file d => exact ⟨hdirk k (hkp k hkm) (hk k hkm).1, fun hm => (hk k hkm).2 (List.mem_cons_of_mem _ hm)⟩
+    have hready' : Ready (match nd with | .dir => p :: known | .file _ => known) r = true := by
+      cases nd <;> (simp only [Ready, Bool.and_eq_true] at hready; exact hready.2)
+    obtain ⟨i1, i2, i3⟩ := ih _ fs' hnd.2 hknown' hready' habs'
+    rw [hres]
+    refine ⟨i1, ?_, ?_⟩
+    · intro e he
+      rcases List.mem_cons.mp he with h | h
+      · subst h; rw [i3 p hnd.1]; exact hself
+      · exact i2 e h
+    · intro q hq
+      have hq1 : q ≠ p := fun e => hq (by rw [e]; exact List.mem_cons_self)
+      have hq2 : q ∉ r.map (·.1) := fun hm => hq (List.mem_cons_of_mem _ hm)
+      rw [i3 q hq2, hsame q hq1]
+
+/-- **absent configuration directory**: on a tree that has nothing at any template path, the run succeeds, the complete
+    template tree exists afterwards, and nothing else is touched -/
+theorem C18_fresh_repo (fs : FS) (habs : ∀ p ∈ repoTemplate.map (·.1), alookup p fs = none) :
+    (upkeep repoTemplate fs).2 = true ∧ (∀ e ∈ repoTemplate, alookup e.1 (upkeep repoTemplate fs).1 = some e.2) ∧
+    (∀ q, q ∉ repoTemplate.map (·.1) → alookup q (upkeep repoTemplate fs).1 = alookup q fs) := by
+  have hcfg : configDir ∈ repoTemplate.map (·.1) := by decide
+  have hnone : (alookup configDir fs).isNone = true := by rw [habs configDir hcfg]; rfl
+  have : upkeep repoTemplate fs = createAll repoTemplate fs := by unfold upkeep; rw [if_pos hnone]
+  rw [this]
+  apply createAll_spec repoTemplate [""] fs (by decide) _ (by decide) habs
+  intro k hk
+  simp only [List.mem_singleton] at hk
+  subst hk
+  exact ⟨by simp [isDirIn], by decide⟩
+
+/-- the template has the configuration directory itself as its first entry, every factory file, the blacklist and hidi.toml -/
+theorem C18_template_nonempty : repoTemplate.length ≥ 10 ∧ (configDir, Node.dir) ∈ repoTemplate := by
+  constructor <;> decide
 
 end Hidi.Props.C18
